@@ -428,7 +428,8 @@ def root_of(b, Kzz):
 def coq_term(strat_code, m, n, g, K, mu, jit3, kind, p1, p2, L, xv, idx):
     return "(%d%%nat, (%d%%nat, %d%%nat, %d%%nat), %s, %s, (%s, %s, %s), %d%%nat, %s, %s, %s, %s, %s)" % (
         strat_code, m, n, g, C.qc_mat(K), C.qc_vec(mu), C.qc_lit(jit3[0]), C.qc_lit(jit3[1]), C.qc_lit(jit3[2]),
-        kind, C.qc_vec(p1), C.qc_mat(p2), C.qc_mat(L), C.qc_vec(xv), C.nat_list(idx))
+        kind, C.qc_vec(p1), C.qc_mat(p2), C.qc_mat(L), C.qc_vec(xv) if xv else "(@nil Qc)",
+        C.nat_list(idx) if idx else "(@nil nat)")
 
 
 def plan(b, mode):
